@@ -15,6 +15,18 @@ import (
 
 func rn(n int) int { return simrt.Draw(n) }
 
+// wide: every third run of the thorough tier draws from wider ranges (more tasks, longer
+// histories, longer paths with more functions).  Set by main per run index, never during
+// the construction of the C19 corpus (fresh reference processes build the same corpus).
+var wide bool
+
+func widen(n int) int {
+	if wide {
+		return 2 * n
+	}
+	return n
+}
+
 // chance is true with roughly pct percent probability; a zero draw gives false.
 func chance(pct int) bool { return rn(100) >= 100-pct }
 
@@ -1131,6 +1143,12 @@ func genLongPath() *PathSpec {
 
 // genPathFor generates a path that, with high probability, selects something in doc.
 func genPathFor(doc interface{}, funcs uint32, trap bool, maxSteps, maxFuncs int) *PathSpec {
+	if wide {
+		maxSteps += 2
+		if maxFuncs > 0 {
+			maxFuncs++
+		}
+	}
 	if rn(150) == 149 {
 		return genLongPath()
 	}
